@@ -709,6 +709,28 @@ class Repo:
             for n in ast.walk(fi.node):
                 if hasattr(n, '_inl'):
                     continue            # copy made by helper expansion: the template belongs to the helper
+                texts = None
+                if isinstance(n, ast.BinOp) and isinstance(n.op, ast.Mod) and isinstance(n.left, ast.BinOp) and isinstance(n.left.op, ast.Add):
+                    # a template put together from pieces: literal parts and locals that hold one
+                    # of a few literal parts -- one template per combination
+                    texts = _assembled_texts(fi.node, n.left)
+                    if texts and not any('\n' in t and HOLE.search(t) for t in texts):
+                        texts = None
+                if texts:
+                    right = n.right
+                    if isinstance(right, ast.Name):
+                        for a in ast.walk(fi.node):
+                            if isinstance(a, ast.Assign) and isinstance(a.targets[0], ast.Name) and a.targets[0].id == right.id and isinstance(a.value, ast.Dict):
+                                right = a.value
+                    if isinstance(right, ast.Dict):
+                        for i, t in enumerate(texts):
+                            fake = ast.BinOp(left=ast.Constant(value=t), op=ast.Mod(), right=n.right)
+                            ast.copy_location(fake, n)
+                            ast.copy_location(fake.left, n)
+                            tpl = Template(fi, fake, right)
+                            tpl.variant = i
+                            out.append(tpl)
+                    continue
                 if isinstance(n, ast.BinOp) and isinstance(n.op, ast.Mod) and isinstance(n.left, ast.Constant) \
                         and isinstance(n.left.value, str) and '\n' in n.left.value and HOLE.search(n.left.value):
                     right = n.right
@@ -734,6 +756,38 @@ class Repo:
 
 
 HOLE = re.compile(r'%\((\w+)\)([sdi])')
+
+
+def _assembled_texts(func, e, limit=8):
+    """the texts ``a + b + c`` can be when every part is a string literal or a local that is only
+    ever assigned string literals (None when a part is something else)"""
+    parts = []
+
+    def flat(x):
+        if isinstance(x, ast.BinOp) and isinstance(x.op, ast.Add):
+            flat(x.left)
+            flat(x.right)
+        else:
+            parts.append(x)
+    flat(e)
+    alts = []
+    for p in parts:
+        if isinstance(p, ast.Constant) and isinstance(p.value, str):
+            alts.append([p.value])
+        elif isinstance(p, ast.Name):
+            vals = [a.value for a in ast.walk(func) if isinstance(a, ast.Assign) and any(isinstance(t, ast.Name) and t.id == p.id for t in a.targets)]
+            stores = sum(1 for x in ast.walk(func) if isinstance(x, ast.Name) and x.id == p.id and isinstance(x.ctx, (ast.Store, ast.Del)))
+            if not vals or stores != len(vals) or not all(isinstance(v, ast.Constant) and isinstance(v.value, str) for v in vals):
+                return None
+            alts.append(sorted({v.value for v in vals}))
+        else:
+            return None
+    out = ['']
+    for a in alts:
+        out = [o + x for o in out for x in a]
+        if len(out) > limit:
+            return None
+    return out
 
 
 class Template:
